@@ -29,6 +29,9 @@ checks = {
          "client half (Client.Auth) is covered by the Client.tla family once built; exchanges of up to 2 challenges; one representative per response class plus binary octets", SESS),
  "C10": ("session", "Server half: every pre-STARTTLS history class of the bounded model (greeted, authenticated, mid-transaction, mid-BDAT) x {clean, plaintext injected behind the command}; real TLS handshakes over the in-memory pipe; Logout/NewSession/TLS state compared per edge; walks validated by TLC",
          "client half (DialStartTLS/SendMail) is covered by the Client.tla family once built", SESS),
+ "C12": ("caps", "Caps.tla defines the advertised capability set and the outcome of every probe command/parameter as functions of the configuration and the TLS state, and TLC checks on the complete configuration space (3072 states) that everything advertised is honoured and everything disabled is refused; TLC dumps the expected capability set and probe outcomes per configuration and a real server is started for each of them (TLS active both via STARTTLS and as implicit TLS: 4096 servers), greeted with HELO and EHLO/LHLO and probed with 15 commands/parameters",
+         "limits use N = 7; REQUIRETLS accepted on plaintext when enabled is modelled as the code does it and not judged",
+         "TLA+ exhaustive enumeration of the configuration space (TLC) + one real server per configuration compared with the dumped expectation"),
  "C13": ("lmtp", "Lmtp.tla models the status collector as the code builds it (one bounded channel per distinct address, capacity = multiplicity) with the backend as a nondeterministic program running concurrently with the emitter; TLC checks for every recipient list up to the bound, every program within the contract and every interleaving that each reply carries the right status, channels never overflow, no deadlock, termination; every recipient list x program x status timing (before/after consuming the message) x return {nil, error, panic} is then run on the real LMTP server via DATA, BDAT LAST in one and two chunks, a backend failing inside the LAST chunk, and plain backends, and the recorded reply sequences are judged by TLC against Lmtp!Expected; replies must name their recipient; a final response that never completes is reported when the handler is proven blocked",
          "recipient lists up to 3 (quick) / 4 (thorough) over two addresses; backend programs stay within the documented contract",
          "TLA+ model checking (TLC, safety + liveness) + exhaustive program enumeration on the real server judged by TLC"),
